@@ -464,3 +464,5 @@ def run(tier, seed):
 
 
 RULE += (' One algorithm object run 2-3 times with changed N and G (six plans x four algorithms), each run judged on the designs it recorded itself; the stored record of a run read back through a view shows generations of exactly N designs.')
+
+RULE += (' Beyond small: default execution with N in {16, 17, 24, 31, 32, 33, 64, 65, 100, 129} and G up to 70 (thorough N=257, G=130), constrained for N=17, 33, 65.')
